@@ -809,12 +809,14 @@ fn conv_parser<E: sml_rs::util::ByteSourceErr>(r: Result<Parser, sml_rs::transpo
                     Ok(ev) => match ev {
                         sml_rs::parser::streaming::ParseEvent::MessageStart(m) => {
                             use sml_rs::parser::streaming::MessageBody as MB;
+                            #[allow(unreachable_patterns)]
                             let body = match &m.message_body {
-                                MB::OpenResponse(o) => RBody::Open { codepage: o.codepage.map(|x| x.to_vec()), client_id: o.client_id.map(|x| x.to_vec()), req_file_id: o.req_file_id.to_vec(), server_id: o.server_id.to_vec(), ref_time: o.ref_time.as_ref().map(|sml_rs::parser::common::Time::SecIndex(v)| RTime::SecIndex(*v)), sml_version: o.sml_version },
+                                other if false => RBody::Other(format!("{:?}", other)),
+                                MB::OpenResponse(o) => RBody::Open { codepage: o.codepage.map(|x| x.to_vec()), client_id: o.client_id.map(|x| x.to_vec()), req_file_id: o.req_file_id.to_vec(), server_id: o.server_id.to_vec(), ref_time: o.ref_time.as_ref().map(crate::sml::t), sml_version: o.sml_version },
                                 MB::CloseResponse(c) => RBody::Close { sig: c.global_signature.map(|x| x.to_vec()) },
                                 MB::GetListResponse(g) => {
                                     open = true;
-                                    RBody::GetList { client_id: g.client_id.map(|x| x.to_vec()), server_id: g.server_id.to_vec(), list_name: g.list_name.map(|x| x.to_vec()), act_sensor_time: g.act_sensor_time.as_ref().map(|sml_rs::parser::common::Time::SecIndex(v)| RTime::SecIndex(*v)), vals: vec![], list_sig: None, act_gateway_time: None }
+                                    RBody::GetList { client_id: g.client_id.map(|x| x.to_vec()), server_id: g.server_id.to_vec(), list_name: g.list_name.map(|x| x.to_vec()), act_sensor_time: g.act_sensor_time.as_ref().map(crate::sml::t), vals: vec![], list_sig: None, act_gateway_time: None }
                                 }
                             };
                             msgs.push(RMsg { tid: m.transaction_id.to_vec(), group: m.group_no, abort: m.abort_on_error, body });
@@ -827,7 +829,7 @@ fn conv_parser<E: sml_rs::util::ByteSourceErr>(r: Result<Parser, sml_rs::transpo
                         sml_rs::parser::streaming::ParseEvent::GetListResponseEnd(g) => {
                             if let (true, Some(RMsg { body: RBody::GetList { list_sig, act_gateway_time, .. }, .. })) = (open, msgs.last_mut()) {
                                 *list_sig = g.list_signature.map(|x| x.to_vec());
-                                *act_gateway_time = g.act_gateway_time.as_ref().map(|sml_rs::parser::common::Time::SecIndex(v)| RTime::SecIndex(*v));
+                                *act_gateway_time = g.act_gateway_time.as_ref().map(crate::sml::t);
                             }
                             open = false;
                         }
